@@ -84,6 +84,40 @@ pub const C10_ALPHABET: [char; 16] = [
     'a', ' ', '\n', '\t', '-', '.', ':', '#', '[', ',', '"', '|', '\u{e9}', '\r', '\0', '{',
 ];
 
+/// Token-level exhaustive enumeration (W8): every sequence of up to L tokens over the YAML
+/// token alphabet below (indicators with and without their separating blank, the three quote
+/// characters, both block scalar headers, node properties, document markers, directives, every
+/// kind of blank / break / NUL, a non-ASCII character and a backslash).
+pub const TOKENS: [&str; 36] = [
+    "a", "b ", " ", "  ", "\n", "\t", "- ", "? ", ": ", ":", ",", "[", "]", "{", "}", "#", " #c", "&x ", "*x", "!t ",
+    "!!str ", "|\n", ">-\n", "'s'", "\"d\"", "\"", "'", "---", "...", "--- ", "%YAML 1.2\n", "%TAG !e! t:\n", "\r\n",
+    "\0", "\u{e9}", "\\",
+];
+
+pub fn count_token_strings(l: usize) -> u64 {
+    (1..=l).map(|k| (TOKENS.len() as u64).pow(k as u32)).sum()
+}
+
+/// The i-th token string (lengths 1..; index 0 is the first single token).
+pub fn nth_token_string(mut i: u64) -> String {
+    let k = TOKENS.len() as u64;
+    let mut len = 1u32;
+    loop {
+        let n = k.pow(len);
+        if i < n {
+            break;
+        }
+        i -= n;
+        len += 1;
+    }
+    let mut s = String::new();
+    for _ in 0..len {
+        s.push_str(TOKENS[(i % k) as usize]);
+        i /= k;
+    }
+    s
+}
+
 pub fn nth_string(alphabet: &[char], mut i: u64) -> String {
     let k = alphabet.len() as u64;
     let mut len = 0u32;
